@@ -920,9 +920,41 @@ func verifyRaw(clause string, m *msggen.Message, sub *twin, raw, trailerSection 
 	}
 	// (a response delimited by the end of the connection has Close set with and
 	// without the header: nothing can be asked of its snapshot)
-	if _, want := descValue("Connection"); want && m.Framing != "close" {
-		if got, ok := rawValue("Connection"); !ok || !strings.EqualFold(got, "close") {
+	// The connection options are compared as a set: net/http may hold "close"
+	// in the Close field next to a Connection header that names it too, so the
+	// snapshot can list an option twice; it must not lose or invent one.
+	options := func(values []string) string {
+		set := map[string]bool{}
+		for _, val := range values {
+			for _, o := range strings.Split(val, ",") {
+				if o = strings.ToLower(strings.TrimSpace(o)); o != "" {
+					set[o] = true
+				}
+			}
+		}
+		var out []string
+		for o := range set {
+			out = append(out, o)
+		}
+		sort.Strings(out)
+		return strings.Join(out, ",")
+	}
+	var wantConn, gotConn []string
+	for _, h := range m.Headers {
+		if strings.EqualFold(h.Name, "Connection") {
+			wantConn = append(wantConn, h.Value)
+		}
+	}
+	for _, l := range lines {
+		if len(l) > 11 && strings.EqualFold(l[:11], "Connection:") {
+			gotConn = append(gotConn, l[11:])
+		}
+	}
+	if want, got := options(wantConn), options(gotConn); len(wantConn) > 0 && m.Framing != "close" && want != got {
+		if want == "close" && got == "" {
 			v.Addf(clause+"connection-close/header-dropped", "the message carries 'Connection: close' (net/http keeps it in the Close field and forwards it), the snapshot has no such line: %s", head(raw))
+		} else {
+			v.Addf(clause+"connection-options/options-differ", "the message has the connection options {%s}, the snapshot {%s}: %s", want, got, head(raw))
 		}
 	}
 	if want, ok := descValue("Trailer"); ok {
@@ -1172,6 +1204,9 @@ func classes(c Case) []string {
 	if s.Method == "CONNECT" {
 		cl = append(cl, "connect-request")
 	}
+	if len(s.ConnOptions) > 0 {
+		cl = append(cl, "connection-options")
+	}
 	if s.CustomReason {
 		cl = append(cl, "custom-reason-phrase")
 	}
@@ -1224,7 +1259,7 @@ var propForward = &kit.Prop[Case]{
 	Gates: map[string]float64{
 		"nontrivial": 0.5, "framing-chunked": 0.15, "trailers": 0.04, "encoded": 0.2, "skip-logging": 0.1,
 		"logger-har": 0.1, "logger-marbl": 0.1, "logger-text": 0.1, "logger-snapshot": 0.1, "logger-stack": 0.1,
-		"request": 0.3, "response": 0.3, "body>=4097": 0.15, "bodyless-post": 0.01, "skip-logging-between-request-and-response": 0.05, "mark-after-skip-logging": 0.03, "unannounced-trailers": 0.01, "built-cl0": 0.01, "marbl-sink-write-fails": 0.03, "text-default-sink": 0.02, "response-nil-body": 0.005, "connect-request": 0.005, "custom-reason-phrase": 0.05, "query-rejected-by-net-url": 0.03, "built-cl-1": 0.01, "unparseable-form-captured-by-har": 0.003,
+		"request": 0.3, "response": 0.3, "body>=4097": 0.15, "bodyless-post": 0.01, "skip-logging-between-request-and-response": 0.05, "mark-after-skip-logging": 0.03, "unannounced-trailers": 0.01, "built-cl0": 0.01, "marbl-sink-write-fails": 0.03, "text-default-sink": 0.02, "response-nil-body": 0.005, "connect-request": 0.005, "connection-options": 0.02, "custom-reason-phrase": 0.05, "query-rejected-by-net-url": 0.03, "built-cl-1": 0.01, "unparseable-form-captured-by-har": 0.003,
 	},
 }
 
@@ -1372,7 +1407,13 @@ func matrixExtra(yield func(Case) bool) {
 			c.Msg.Status, c.Msg.Reason, c.Msg.CustomReason = r.code, r.reason, true
 			cs = append(cs, c)
 		}
-		for _, enc := range []string{"x-gzip", "deflate-zlib", "gzip-bad", "gzip-padded", "gzip-truncated", "deflate-bad"} {
+		for _, opts := range [][]string{{"TE, close"}, {"TE", "close"}, {"close, X-Hop"}, {"X-Hop", "TE"}} {
+			c := base
+			c.Msg = reqSpec
+			c.Msg.ConnOptions = opts
+			cs = append(cs, c)
+		}
+		for _, enc := range []string{"x-gzip", "deflate-zlib", "gzip-bad", "gzip-padded", "gzip-truncated", "deflate-bad", "gzip-multi"} {
 			c := base
 			c.Msg, c.Decode = resSpec, true
 			c.Msg.Encoding = enc
